@@ -200,6 +200,19 @@ fn c15_all() {
         ok &= check_doc(n, &s.replace(' ', "\n"));
         ok &= check_doc(n, &s.replace("; ", ";\r\n /* é中 */ "));
     }
+    // names laid out over several lines (a dotted name is a token sequence: it may break at every dot), continuation lines
+    // less and more indented than the first line, LF and CRLF
+    let dotted = [
+        ("dotted_iface", "package com.example.demo; import a.b.C; import d.E; interface I { a.b.C f(in x.y.Z z, out List<a.b.C> l); const int K = 1; d.E[] g(); }"),
+        ("dotted_parcelable", "package com.example; import a.b.C; parcelable P { a.b.C c; Map<String, x.y.Z> m; }"),
+    ];
+    for (n, s) in dotted.iter() {
+        ok &= check_doc(n, s);
+        for brk in [".\n", "\n.", ".\n            ", "\n  .\n ", ".\r\n", ".\r\n      "].iter() {
+            ok &= check_doc(n, &s.replace('.', brk));
+            ok &= check_doc(n, &format!("      {}", s).replace('.', brk).replace("; ", ";\n        "));
+        }
+    }
     // generated family: every member form x type shapes nested to depth 3 (arrays of generics, generics of arrays)
     let shapes = ["int", "Foo", "int[]", "Foo[][]", "List<Foo>", "List<String>[]", "Map<String, Foo>", "Map<String, List<Foo[]>>", "List<Map<String, int[]>>[]", "Map<String, Map<String, List<Foo>>>"];
     let mut n_gen = 0;
@@ -208,6 +221,6 @@ fn c15_all() {
         let p = format!("package p; import x.Foo; parcelable P {{ {a} u; const String S = \"s\"; {b} v; }}", a = a, b = b);
         ok &= check_doc("gen_iface", &i); ok &= check_doc("gen_parcelable", &p); n_gen += 2;
     } }
-    println!("ORACLE-STATS evaluations={} distinct={} rule=each (document, filter level, predicate) comparison with the reference traversal; documents: 6 hand-written + {} generated (10 x 10 type shapes, depth <= 3, interface and parcelable frames)", EVALS.load(std::sync::atomic::Ordering::Relaxed), 6 + n_gen, n_gen);
+    println!("ORACLE-STATS evaluations={} distinct={} rule=each (document, filter level, predicate) comparison with the reference traversal; documents: 6 hand-written + 2 with dotted names in 13 multi-line layouts + {} generated (10 x 10 type shapes, depth <= 3, interface and parcelable frames)", EVALS.load(std::sync::atomic::Ordering::Relaxed), 6 + n_gen, n_gen);
     assert!(ok, "witness found");
 }
